@@ -94,46 +94,100 @@ def jet_ctx(G, sign=1, order=18, prefix="a", group_input=False):
     return ctx
 
 
+def _classes(ctx, lp, unit_atoms):
+    """split a Laurent polynomial by the monomial in the non-unit atoms (translation-like coordinates)"""
+    out = {}
+    mask_keep = 0
+    for i in range(len(ctx.names)):
+        if i != ctx.t and i not in unit_atoms:
+            mask_keep |= poly.MASK << (poly.BITS * i)
+    for m, c in lp.t.items():
+        out.setdefault(m & mask_keep, {})[m] = c
+    return {k: poly.LP(ctx, v, lp.den) for k, v in out.items()}
+
+
+def _order_bound(ctx, lp, tmax):
+    """sum_k ||coefficient of t^k||_1 tmax^k   (all other atoms bounded by 1)"""
+    sh = poly.BITS * ctx.t
+    tot = Fraction(0)
+    for m, c in lp.t.items():
+        k = ((m >> sh) & poly.MASK) - poly.BIAS
+        if k < 0:
+            raise engine.Infra("negative power of t survives in a series difference")
+        tot += abs(Fraction(c, lp.den)) * Fraction(tmax) ** k
+    return tot
+
+
+def _lead_scale(ctx, lp):
+    """largest single coefficient of the t^0 part (reference magnitude of an entry at the identity)"""
+    sh = poly.BITS * ctx.t
+    best = Fraction(0)
+    for m, c in lp.t.items():
+        if ((m >> sh) & poly.MASK) - poly.BIAS == 0:
+            best = max(best, abs(Fraction(c, lp.den)))
+    return best
+
+
 def series_pairs(res, oid, pairs, G, tol, minprec=6, group_input=False, order=18, call=None, pv=None, prefix="a",
                  expect_fail=False):
-    """|lhs - rhs| <= tol on 0 < t <= TMAX, from the exact series coefficients (A2 Maclaurin series, A5 remainder)."""
+    """For every entry and every homogeneous class mu in the translation-like coordinates:
+         |lhs - rhs|_mu <= tol * (largest entry of rhs in class mu at the identity)      on 0 < t <= TMAX,
+    from the exact series coefficients (A2 Maclaurin series, A5 remainder beyond the computed order).
+    lhs = Taylor-branch output, rhs = closed-form output; the class-wise reference implements "relative to the
+    largest entry" uniformly in the magnitude of the translation-like coordinates."""
     signs = (1, -1) if G.rot_kind == "so2" else (1,)
     canary_seen = False
-    for entry, l, r in pairs:
-        t0 = time.time()
-        worst = Fraction(0)
-        info = ""
-        ok = True
-        try:
-            for sg in signs:
-                ctx = jet_ctx(G, sg, order, prefix, group_input)
+    t00 = time.time()
+    per_sign = []
+    try:
+        for sg in signs:
+            ctx = jet_ctx(G, sg, order, prefix, group_input)
+            unit_atoms = set(i for i, nm in enumerate(ctx.names) if nm.startswith("u") and nm[1:].isdigit())
+            items = []
+            for entry, l, r in pairs:
                 jl, jr = jet.to_jet(ctx, l), jet.to_jet(ctx, r)
                 d = jet.jadd(ctx, jl, jet.jneg(ctx, jr))
                 if d.prec < minprec:
-                    raise engine.Infra("series precision %d too low" % d.prec)
-                b, per = engine.series_bound(ctx, d, TMAX)
-                worst = max(worst, b)
-                if b > tol:
+                    raise engine.Infra("series precision %d too low for %s" % (d.prec, entry))
+                items.append((entry, d, jr))
+            scale = {}
+            for entry, d, jr in items:
+                for mu, part in _classes(ctx, jr.lp, unit_atoms).items():
+                    scale[mu] = max(scale.get(mu, Fraction(0)), _lead_scale(ctx, part))
+            per_sign.append((ctx, unit_atoms, items, scale))
+        res.assumptions |= set(ctx.assumptions) | {"Maclaurin series of sin/cos/atan/sqrt (A2); remainder beyond the computed order (A5)"}
+    except (poly.NotPolynomial, ZeroDivisionError, NotImplementedError, engine.Infra) as e:
+        for entry, _, _ in pairs:
+            res.add("%s/%s" % (oid, entry), "error" if not expect_fail else "canary-not-refuted", "jet", 0.0, "jet: %r" % (e,))
+        return
+    dt = (time.time() - t00) / max(1, len(pairs))
+    for idx, (entry, l, r) in enumerate(pairs):
+        ok = True
+        info = ""
+        worst = 0.0
+        for ctx, unit_atoms, items, scale in per_sign:
+            _, d, jr = items[idx]
+            for mu, part in _classes(ctx, d.lp, unit_atoms).items():
+                ref = scale.get(mu, Fraction(0))
+                if ref == 0:
+                    ref = Fraction(1)
+                b = _order_bound(ctx, part, TMAX)
+                worst = max(worst, float(b / ref))
+                if b > tol * ref:
                     ok = False
-                    k0 = min(k for k, m in per.items() if m * TMAX ** k > tol / 100) if per else None
-                    info = "bound %.3g > tol %.3g; first significant order t^%s coefficient %s" % (
-                        float(b), float(tol), k0, str(jet.coeff(ctx, d.lp, k0))[:200] if k0 is not None else "")
-            res.assumptions |= set(ctx.assumptions) | {"Maclaurin series of sin/cos/atan/sqrt (A2); remainder beyond the computed order (A5)"}
-        except (poly.NotPolynomial, ZeroDivisionError, NotImplementedError) as e:
-            res.add("%s/%s" % (oid, entry), "error", "jet", time.time() - t0, "jet: %r" % (e,))
-            continue
-        dt = time.time() - t0
+                    info = "class %s: error bound %.3g > %.3g * reference %.3g; leading error term %s" % (
+                        ctx.mono_str(mu + (poly.BIAS_ALL & ~_keepmask(ctx, unit_atoms))), float(b), float(tol), float(ref), str(part)[:160])
         if expect_fail:
             canary_seen = canary_seen or (not ok)
             continue
         if ok:
-            res.add("%s/%s" % (oid, entry), "proved", "jet", dt, "series bound %.3g <= %.3g" % (float(worst), float(tol)))
+            res.add("%s/%s" % (oid, entry), "proved", "jet", dt, "relative series bound %.3g <= %.3g" % (worst, float(tol)))
         else:
             payload = dict(obligation="%s/%s" % (oid, entry), property=res.prop, backend="jet", reason=info,
                            lhs=dag.show(l, 5), rhs=dag.show(r, 5))
             w = None
             if call is not None:
-                w = taylor_witness(G, l, r, tol, prefix, group_input)
+                w = taylor_witness(G, pairs, idx, tol, prefix, group_input)
                 payload["witness"] = w
                 if w and "env" in w:
                     payload["native"] = native_replay(call, w["env"], pv)
@@ -143,20 +197,29 @@ def series_pairs(res, oid, pairs, G, tol, minprec=6, group_input=False, order=18
         res.add(oid, "canary-refuted" if canary_seen else "canary-not-refuted", "jet", 0.0)
 
 
-def taylor_witness(G, l, r, tol, prefix, group_input):
-    """A concrete small-angle input at which lhs and rhs differ by more than tol (evaluated in 60-digit arithmetic)."""
+def _keepmask(ctx, unit_atoms):
+    mk = 0
+    for i in range(len(ctx.names)):
+        if i != ctx.t and i not in unit_atoms:
+            mk |= poly.MASK << (poly.BITS * i)
+    return mk
+
+
+def taylor_witness(G, pairs, idx, tol, prefix, group_input):
+    """A concrete small-angle input at which entry idx of lhs and rhs differ by more than tol relative to the largest
+    entry of rhs (60-digit evaluation of both DAGs)."""
     import random
-    import mpmath
     rng = random.Random(1)
     best = None
-    for _ in range(40):
-        env = {}
-        names = set(n.args[0] for n in dag.leaves([l, r]))
+    roots = [x for _, l, r in pairs for x in (l, r)]
+    names = set(n.args[0] for n in dag.leaves(roots))
+    for trial in range(60):
         th = 9.9e-5 * rng.uniform(0.5, 1.0)
+        tscale = [1.0, 30.0, 1e3][trial % 3]
         if not group_input:
-            e = G.sample_tangent(rng, prefix, rotnorm=th)
+            e = G.sample_tangent(rng, prefix, rotnorm=th, tscale=tscale)
         else:
-            e = G.sample_group(rng, prefix)
+            e = G.sample_group(rng, prefix, tscale=tscale)
             for grp in G.unit:
                 if len(grp) == 4:
                     u = [rng.gauss(0, 1) for _ in range(3)]
@@ -164,20 +227,27 @@ def taylor_witness(G, l, r, tol, prefix, group_input):
                     for k in range(3):
                         e["%s%d" % (prefix, grp[k])] = u[k] / n * th
                     e["%s%d" % (prefix, grp[3])] = (1 - th * th) ** 0.5
-        env.update(e)
+                elif len(grp) == 2:
+                    e["%s%d" % (prefix, grp[0])] = th
+                    e["%s%d" % (prefix, grp[1])] = (1 - th * th) ** 0.5
+        env = dict(e)
         for n in names:
             env.setdefault(n, rng.uniform(-1, 1))
         try:
-            vl, vr = eval_mp([l, r], env)
+            vals = eval_mp(roots, env)
         except Exception:
             continue
-        d = abs(vl - vr)
+        ref = max(abs(vals[2 * i + 1]) for i in range(len(pairs)))
+        if ref == 0:
+            ref = 1
+        d = abs(vals[2 * idx] - vals[2 * idx + 1]) / ref
         if best is None or d > best[0]:
-            best = (d, env, vl, vr)
+            best = (d, env, vals[2 * idx], vals[2 * idx + 1], ref)
     if best is None:
         return None
-    d, env, vl, vr = best
-    return dict(env=fmt_env(env), lhs=float(vl), rhs=float(vr), diff=float(d), confirmed=bool(d > tol))
+    d, env, vl, vr, ref = best
+    return dict(env=fmt_env(env), lhs=float(vl), rhs=float(vr), rel_to_largest_entry=float(d), largest_entry=float(ref),
+                confirmed=bool(float(d) > float(tol)))
 
 
 def eval_mp(roots, env, dps=60):
@@ -229,3 +299,8 @@ def tangent_sampler(G, names=("a",), extra=()):
 def subst_fn(nodes, mapping):
     """substitute variables (dict name -> node) in a list of nodes"""
     return dd.subst(nodes, mapping)
+
+
+def signvars(G, prefix="a"):
+    """scalar rotation coordinates of planar groups: closed-form code reaches them through sqrt(x^2)"""
+    return ["%s%d" % (prefix, i) for i in G.rot] if G.rot_kind == "so2" else None
